@@ -790,6 +790,19 @@ func (e *e4Engine) fn(f *ssa.Function, res *e4Result) {
 			case *ssa.SliceToArrayPointer:
 				res.nBounds++
 				key := e.descr(in, "slice-to-array", shortDesc(x.X, 4), ord)
+				// a dominating guard that fixes (or bounds from below) the slice's length by the array's
+				if pt, ok := x.Type().Underlying().(*types.Pointer); ok {
+					if at, ok := pt.Elem().Underlying().(*types.Array); ok {
+						lo, _ := e.gc.lenBounds(in.Block(), func(v ssa.Value) bool {
+							cl, ok := v.(*ssa.Call)
+							return ok && isBuiltinCall(cl.Common(), "len") && cl.Call.Args[0] == x.X
+						})
+						if lo >= at.Len() {
+							e.close(in, key, "D2 dominating guard len(x) >= array length", fmt.Sprintf("len >= %d", lo), false)
+							continue
+						}
+					}
+				}
 				e.open(in, key, "conversion of a slice to an array pointer panics when the slice is shorter")
 			case *ssa.TypeAssert:
 				if x.CommaOk {
